@@ -400,3 +400,58 @@ package ggql
 //@           invariant[types-clean] len(errs) == 0 ==> !badEntryUpTo(old(root.types.list), old(len(root.types.list)))
 //@           invariant[found] badEntryUpTo(old(root.dirs.list), rangeindex+1) ==> len(errs) > 0
 //@           invariant[clean] len(errs) == 0 ==> !badEntryUpTo(old(root.dirs.list), rangeindex+1)
+
+//@ -- ------------------------------------------------------------------ directive uses: a use is refused when it does not name a
+//@ -- directive, when the directive may not be applied at that location, when it passes an argument the directive does not
+//@ -- declare, or when it passes an explicit null for a non-null argument
+//@ spec dirOf(du *DirectiveUse) *Directive = as(du.Directive, *Directive)
+//@ spec dirArg(d *Directive, name string) *Arg = ite(d.args.dict == nil, nil, d.args.dict[name])
+//@ spec allowedAt(d *Directive, loc Location, n int) bool = exists i int {d.On[i]} :: 0 <= i && i < n && d.On[i] == loc
+//@ func (*Root).validateDirUse
+//@   props C13 C03
+//@   check panic {C03}
+//@   requires root != nil && du != nil
+//@   requires[args-keyed-by-name] argsKeyed(du)
+//@   ensures[not-a-directive] !is(du.Directive, *Directive) || dirOf(du) == nil ==> len(errs) > 0
+//@   ensures[wrong-location] is(du.Directive, *Directive) && dirOf(du) != nil && !allowedAt(dirOf(du), loc, len(dirOf(du).On)) ==> len(errs) > 0
+//@   ensures[undeclared-argument] is(du.Directive, *Directive) && dirOf(du) != nil && allowedAt(dirOf(du), loc, len(dirOf(du).On)) && (exists k string :: has(du.Args, k) && dirArg(dirOf(du), old(du.Args[k].Arg)) == nil) ==> len(errs) > 0
+//@   ensures[null-for-non-null] is(du.Directive, *Directive) && dirOf(du) != nil && allowedAt(dirOf(du), loc, len(dirOf(du).On)) && (exists k string :: has(du.Args, k) && dirArg(dirOf(du), old(du.Args[k].Arg)) != nil && is(dirArg(dirOf(du), old(du.Args[k].Arg)).Type, *NonNull) && old(du.Args[k].Value) == nil) ==> len(errs) > 0
+//@   loop 0: invariant[bounds] rangeindex+1 <= len(d.On)
+//@           invariant[not-yet] !allowedAt(d, loc, rangeindex+1)
+//@   loop 1: invariant[domain] forall k string {indomain(1, k)} :: indomain(1, k) <==> has(du.Args, k)
+//@           invariant[undeclared] forall k string {seen(1, k)} :: seen(1, k) && dirArg(d, old(du.Args[k].Arg)) == nil ==> len(errs) > 0
+//@           invariant[null] forall k string {seen(1, k)} :: seen(1, k) && dirArg(d, old(du.Args[k].Arg)) != nil && is(dirArg(d, old(du.Args[k].Arg)).Type, *NonNull) && old(du.Args[k].Value) == nil ==> len(errs) > 0
+//@           invariant[names-kept] forall k string {du.Args[k]} :: du.Args[k] == old(du.Args[k]) && (has(du.Args, k) ==> du.Args[k].Arg == old(du.Args[k].Arg))
+//@           invariant[todo] forall k string {seen(1, k)} :: !seen(1, k) && has(du.Args, k) ==> du.Args[k].Value == old(du.Args[k].Value)
+//@           invariant[decl-kept] d.args.dict == old(d.args.dict) && (forall n string {d.args.dict[n]} :: d.args.dict[n] == old(d.args.dict[n]))
+//@           use conformsInDef_NonNull(v, a.Type)
+
+//@ -- ------------------------------------------------------------------ undefined type references inside wrappers are refused
+//@ -- undefT(root, t): the type expression t bottoms out in a reference to a name that is not registered
+//@ spec tyOf(root *Root, n string) Type = ite(root.types.dict == nil, nil, root.types.dict[n])
+//@ spec undefT(root *Root, t Type) bool reads H_List.Base, H_NonNull.Base, H_Root.types, H_typeList.dict, MH_Str_Iface, MD_Str_Iface
+//@ axiom undefTUnfold(root *Root, t Type): undefT(root, t) <==> ite(is(t, *Ref), as(t, *Ref) != nil && tyOf(root, as(t, *Ref).N) == nil, ite(is(t, *List), as(t, *List) != nil && undefT(root, as(t, *List).Base), ite(is(t, *NonNull), as(t, *NonNull) != nil && undefT(root, as(t, *NonNull).Base), false)))
+//@ axiom undefTUnfoldAtEntry(root *Root, t Type): old(undefT(root, t) <==> ite(is(t, *Ref), as(t, *Ref) != nil && tyOf(root, as(t, *Ref).N) == nil, ite(is(t, *List), as(t, *List) != nil && undefT(root, as(t, *List).Base), ite(is(t, *NonNull), as(t, *NonNull) != nil && undefT(root, as(t, *NonNull).Base), false))))
+//@ func (*Root).replaceListRefs
+//@   props C13 C03
+//@   check panic {C03}
+//@   requires root != nil && list != nil && root.types != nil
+//@   results err
+//@   ensures[undefined-refused] old(undefT(root, box(list))) ==> err != nil
+//@   use undefTUnfoldAtEntry(root, box(list))
+//@   use undefTUnfoldAtEntry(root, old(list.Base))
+//@   decreases typeH(box(list))
+//@   use typeHList(list)
+//@   use typeHNonNull(as(list.Base, *NonNull))
+
+//@ func (*Root).replaceNonNullRefs
+//@   props C13 C03
+//@   check panic {C03}
+//@   requires root != nil && nn != nil && root.types != nil
+//@   results err
+//@   ensures[undefined-refused] old(undefT(root, box(nn))) ==> err != nil
+//@   use undefTUnfoldAtEntry(root, box(nn))
+//@   use undefTUnfoldAtEntry(root, old(nn.Base))
+//@   decreases typeH(box(nn))
+//@   use typeHNonNull(nn)
+//@   use typeHList(as(nn.Base, *List))
